@@ -142,6 +142,34 @@ def _hazards(g, r):
     return hz
 
 
+def _defer_vs_reattach(p):
+    """Cause of a DIFF-GRAPH pair: one request is exec_end(S, ..., wants_defer=True), both orders accept
+    both requests and the ONLY difference between the two final dumps is the deferred flag of S (the other
+    request re-attached an input of S, which clears the flag: trigger step_node_undefer_reattached)."""
+    if p["verdict"] != "DIFF-GRAPH":
+        return False
+    ends = [r for r in (p["r1"], p["r2"]) if r[0] == "exec_end" and r[6]]
+    if len(ends) != 1:
+        return False
+    diff = (p["detail"] or {}).get("only_in_12_vs_21") or {}
+    if set(diff) != {"steps"}:
+        return False
+    a, b = diff["steps"]
+    if len(a) != 1 or len(b) != 1:
+        return False
+    import ast
+    ra, rb = ast.literal_eval(a[0]), ast.literal_eval(b[0])
+    # step rows: (label, state, need, deferred, defer_count, holding, has_hash)
+    return (ra[0] == rb[0] == ends[0][1] and ra[3] != rb[3]
+            and ra[:3] + ra[4:] == rb[:3] + rb[4:])
+
+
+def _pair_signature(p):
+    if _defer_vs_reattach(p):
+        return f"C02:noncommute:defer-vs-reattach:{p['kind']}"
+    return f"C02:noncommute:{'fresh' if p['fresh'] else 'hazard-free'}:{p['kind']}:{p['verdict']}"
+
+
 def _gen_pair(rng, g, running):
     c1, c2 = rng.sample(running, 2)
     pool = rng.sample(e2.FILES, rng.randint(2, 5))
@@ -197,7 +225,7 @@ async def _collect_state(seed, length, npairs, rng):
 
 def _states(ctx):
     if getattr(ctx, "c02_states", None) is None:
-        n, npairs = ctx.scale((160, 30), (600, 40))
+        n, npairs = ctx.scale((160, 30), (450, 40))
         out = []
         for i in range(n):
             rng = random.Random(f"c02-pairs-{ctx.seed}-{ctx.tier}-{i}")
@@ -209,7 +237,7 @@ def _states(ctx):
 
 def _reruns(ctx):
     if getattr(ctx, "c02_reruns", None) is None:
-        n = ctx.scale(70, 1200)
+        n = ctx.scale(70, 900)
         seeds = [100000 * ctx.seed + i for i in range(n)]
         ctx.c02_reruns = e3.pool_map(rr.run_scenario, seeds, nproc=6)
     return ctx.c02_reruns
@@ -499,8 +527,7 @@ def oracle(ctx):
             if not hz:
                 # no known hazard class applies to either request: the pair has to commute.  (`fresh` pairs
                 # are a subset: issuers attached, no stale path at all, label absent.)
-                ctx.add_failure("oracle", "both-orders",
-                                f"C02:noncommute:{'fresh' if p['fresh'] else 'hazard-free'}:{kind}:{v}",
+                ctx.add_failure("oracle", "both-orders", _pair_signature(p),
                                 f"two requests of different attached running steps to which none of the hazard "
                                 f"classes (stale volatile input, stale wired input, recycle, detached issuer) "
                                 f"applies do not commute on the real Workflow ({v})",
@@ -649,8 +676,8 @@ MUST_REACH = [
 
 
 def _e3_items(ctx):
-    no, ng = ctx.scale((32, 16), (300, 150))
-    nf, nd = ctx.scale((16, 12), (80, 100))
+    no, ng = ctx.scale((32, 16), (220, 110))
+    nf, nd = ctx.scale((16, 12), (60, 70))
     shifts = ctx.scale([0], [0, 100, 200])
     items = []
     for sh in shifts:
@@ -665,9 +692,9 @@ def _e3_items(ctx):
     items += [("deferplan", 10000 * ctx.seed + i, 0) for i in range(nd)]
     # timing bookkeeping (start/stop stamps behind amend()'s freshness test and the post-run input
     # check): consumer reads, producer stops, unrelated steps start and stop, consumer amends
-    items += [("timing", 10000 * ctx.seed + i, 0) for i in range(ctx.scale(20, 250))]
+    items += [("timing", 10000 * ctx.seed + i, 0) for i in range(ctx.scale(20, 180))]
     # second builds: re-executed sub-plans versus siblings that use what was declared under them
-    items += [("rerun", 10000 * ctx.seed + i, 0) for i in range(ctx.scale(20, 500))]
+    items += [("rerun", 10000 * ctx.seed + i, 0) for i in range(ctx.scale(20, 350))]
     return items
 
 
@@ -761,8 +788,7 @@ def search(ctx):
     for st in states:
         for p in st["pairs"]:
             if not (p["hz"][0] or p["hz"][1]) and not p["fails_anyway"] and p["verdict"] not in ("commute", "both-reject"):
-                ctx.add_failure("oracle", "both-orders",
-                                f"C02:noncommute:{'fresh' if p['fresh'] else 'hazard-free'}:{p['kind']}:{p['verdict']}",
+                ctx.add_failure("oracle", "both-orders", _pair_signature(p),
                                 "found by the deeper search", witness=dict(_wit(p), trace=[repr(o) for o in st["ops"]]))
                 return
 
